@@ -396,7 +396,21 @@ func paramFedByOptional(p *Program, fn *ssa.Function, i int) bool {
 func rulePDIV(p *Program, r *Reporter) {
 	const id = "P-DIV"
 	validated, vwhy := gValidate(p)
+	scope := map[*ssa.Function]bool{}
 	for _, fn := range txnScope(p) {
+		scope[fn] = true
+	}
+	for _, fn := range p.srcFuncs {
+		if pkgOf(fn) == "updates" {
+			scope[fn] = true // arithmetic helpers may be dispatched through a function table
+		}
+	}
+	var fns []*ssa.Function
+	for fn := range scope {
+		fns = append(fns, fn)
+	}
+	sort.Slice(fns, func(i, j int) bool { return fns[i].Pos() < fns[j].Pos() })
+	for _, fn := range fns {
 		fc := newFlowCtx(fn)
 		for _, b := range fn.Blocks {
 			for _, ins := range b.Instrs {
@@ -453,38 +467,82 @@ func nonZeroAt(fc *flowCtx, v ssa.Value, at ssa.Instruction) (bool, string) {
 	return false, ""
 }
 
-// reachedOnlyThroughMutate: every static caller chain of fn inside package updates passes through updates.mutate.
+// reachedOnlyThroughMutate: every reference to fn (static call, or use as a function
+// value, possibly through a package-level dispatch table) lies inside updates.mutate and
+// its private helpers.
 func reachedOnlyThroughMutate(p *Program, fn *ssa.Function) bool {
 	mut := p.Fn("updates", "", "mutate")
 	if mut == nil {
 		return false
 	}
-	ci := getCallIndex(p)
-	seen := map[*ssa.Function]bool{}
-	var walk func(f *ssa.Function) bool
-	walk = func(f *ssa.Function) bool {
-		if f == mut {
-			return true
-		}
-		if seen[f] {
-			return true
-		}
-		seen[f] = true
-		if ci.usedAsVal[f] || isExportedEntry(f) {
-			return false
-		}
-		sites := ci.sites[f]
-		if len(sites) == 0 {
-			return false
-		}
-		for _, s := range sites {
-			if !walk(s.caller) {
-				return false
-			}
-		}
+	if fn == mut {
 		return true
 	}
-	return walk(fn)
+	region := p.PrivateRegion(mut)
+	// private helpers of mutate reached by static calls
+	if region[fn] {
+		return true
+	}
+	top := func(f *ssa.Function) *ssa.Function {
+		for f.Parent() != nil {
+			f = f.Parent()
+		}
+		return f
+	}
+	var initFn *ssa.Function
+	if sp := p.SSAPkgs["updates"]; sp != nil {
+		initFn = sp.Func("init")
+	}
+	all := append([]*ssa.Function{}, p.srcFuncs...)
+	if initFn != nil {
+		all = append(all, initFn)
+	}
+	refs := 0
+	viaTable := false
+	for _, f := range all {
+		for _, b := range f.Blocks {
+			for _, ins := range b.Instrs {
+				for _, op := range ins.Operands(nil) {
+					if op == nil || *op != ssa.Value(fn) {
+						continue
+					}
+					refs++
+					switch {
+					case region[top(f)] || top(f) == mut:
+					case f == initFn:
+						viaTable = true
+					default:
+						return false
+					}
+				}
+			}
+		}
+	}
+	if refs == 0 {
+		return false
+	}
+	if viaTable {
+		// the package-level tables of functions may only be read inside mutate's region
+		sp := p.SSAPkgs["updates"]
+		for _, m := range sp.Members {
+			g, ok := m.(*ssa.Global)
+			if !ok || !strings.Contains(g.Type().String(), "func(") {
+				continue
+			}
+			for _, f := range p.srcFuncs {
+				for _, b := range f.Blocks {
+					for _, ins := range b.Instrs {
+						for _, op := range ins.Operands(nil) {
+							if op != nil && *op == ssa.Value(g) && !(region[top(f)] || top(f) == mut) {
+								return false
+							}
+						}
+					}
+				}
+			}
+		}
+	}
+	return true
 }
 
 // gValidate checks the gate pair: (1) every call to updates.mutate is dominated by a
